@@ -7,6 +7,16 @@ BASE = ("cd /repo && /venv/bin/python -m pytest -ra -q -p no:cacheprovider --tim
         "--continue-on-collection-errors")
 
 CLAIMED = {
+    'C04': dict(
+        text="Attribution calls (claim/unclaim leading, trailing, interleaving, auto-claim) on Layout.tla documents - every single call, auto twice, unclaim/claim pairs, random sequences and hand-back-and-forth sequences between all possible owners of each comment - are recorded and TLC validates every event against CommentOwnership.tla, whose first clauses are that the visible token row and the printed text never change; reads (every property, view index/slice/iteration, ==, hash, deepcopy, print on every reachable model) are executed on every document with the visible token row compared before and after.",
+        note="Documents of <= 3-4 lines in both parse modes; mutator methods are not treated as non-edits.",
+        technique="TLC trace validation (CommentOwnership.tla) of recorded attribution calls + read sweep on Layout.tla documents",
+        ref="§2.6, §6 C04"),
+    'C14': dict(
+        text="CommentOwnership.tla is the ownership transition system (at most one owner, claimed flag iff owned, each call may only move the comments it names between unowned and its own place, auto-claim only fills, leaves none unowned at the root and is idempotent, unclaim+claim restores); recorded executions of all attribution calls on Layout.tla documents are validated by TLC. Layout.tla's Rule states the documented order (leading of the model directly below in the same indentation class, else trailing of a model ending directly above, else standalone) for the unambiguous comment groups and is compared with the default attribution of the real parser; parse(default) is compared with parse(off)+auto-claim.",
+        note="Documents of <= 4-5 lines; ambiguous comment groups (indented comment outside any body, unindented comment between a header and its body, mixed-indent groups) get the invariants but not the order oracle. One deviation class is a recorded finding.",
+        technique="TLC trace validation (CommentOwnership.tla) + TLA+ Rule oracle from Layout.tla against the real attribution",
+        ref="§2.6, §6 C14"),
     'C13': dict(
         text="NumExpr.tla transcribes the concrete syntax tree of number expressions and the parenthesisation helpers; TLC proves over exact rationals that the value of every result equals the arithmetic result for all operator chains (depth 2-3, plain / in-place / reflected / unary, int / Decimal / expression operands) from 11 initial shapes; every chain is replayed on real NumberExpr objects, free-standing and attached in postings, balances and meta values: value, independent left-to-right Decimal evaluation of the printed text, re-parse, operands and their documents unchanged for non-in-place forms, document frame for in-place forms.",
         note="Structure over exact rationals in the specification; decimal accuracy only by comparison with an independent evaluator. Division by zero excluded.",
